@@ -24,7 +24,7 @@ def I(name, entry, what, tiers=Q, **c):
 def BI(a, m, r):
     i = I('bind_%s%s%s' % (['result', 'error', 'nobind'][a], '_sm' if m else '', '_nojid' if (a == 0 and not r) else ''), 'bind_answer',
           'real startResourceBinding step (stream management %s), then handlePacketReceived(%s)' % (['not offered', 'offered'][m], ['<iq type=result id=ID><bind><jid>2 arbitrary units, %s</jid></bind></iq>' % ['not a full JID', 'a full JID'][r], '<iq type=error id=ID><bind/></iq>', '<iq type=result id=ID/>'][a]),
-          session=False, ev=a | m << 2, noreq=bool(m), tiers=Q if (a, m, r) in ((0, 0, 1), (0, 1, 1)) else T)
+          session=False, ev=a | m << 2, noreq=bool(m), tiers=Q if (a, m, r) in ((0, 0, 1), (0, 1, 1), (1, 0, 0)) else T)
     i['cdefs'].update({'C10_RE_MATCHES': r})
     if a == 0 and not r: i['cdefs']['QS_CAP'] = 96; i['model_loop_bound'] = 100      # the error text 'Resource binding failed: ...' is longer than the default string capacity
     return i
@@ -62,8 +62,8 @@ INST = (
     + [I('open', 'open', 'negotiation finished (openSession), no bind2 result', session=False),
        I('open_bind2', 'open', 'negotiation finished (openSession), bind2 result present', session=False, ev=1, L=5)]
     # the callers of openSession: the session is declared open exactly when nothing is left to negotiate
-    + [I('features_b%d_s%d' % (b, m), 'features', 'handleStreamFeatures(f) after authentication, f built through the real setters: no authentication offers, bind %s, stream management %s, session / CSI modes arbitrary' % (['absent', 'offered'][b], ['absent', 'offered'][m]),
-         session=False, ev=b | m << 1, tiers=Q if (b, m) in ((0, 0), (0, 1), (1, 1)) else T) for b in (0, 1) for m in (0, 1)]
+    + [I('features_b%d_s%d_r%d' % (b, m, r), 'features', 'handleStreamFeatures(f) after authentication, f built through the real setters: no authentication offers, bind %s, stream management %s, session / CSI modes arbitrary; previous session %s' % (['absent', 'offered'][b], ['absent', 'offered'][m], ['not resumable', 'resumable'][r]),
+         session=False, ev=b | m << 1 | r << 2, tiers=Q if (b, m, r) in ((0, 0, 0), (0, 1, 1), (1, 1, 0), (0, 1, 0)) else T) for b in (0, 1) for m in (0, 1) for r in (0, 1)]
     + [I('sm_%s_%s%s' % (['enable', 'resume'][r], [['failed', 'enabled', 'other'], ['failed', 'resumed', 'other']][r][a], '_bind' if b else ''), 'sm_answer',
          'real request step (%s; resource binding %s), then handlePacketReceived(%s)' % (['startSmEnable', 'startSmResume'][r], ['not offered', 'offered'][b], ['<failed xmlns=urn:xmpp:sm:3/>', ['<enabled id resume?/>', '<resumed h=<any u32> previd/>'][r], 'one-letter element in urn:xmpp:sm:3'][a]),
          session=False, ev=r | a << 1 | b << 3, tiers=Q if (r, a, b) in ((0, 1, 0), (1, 1, 1), (1, 0, 1), (1, 0, 0)) else T) for r in (0, 1) for a in (0, 1, 2) for b in (0, 1)]
@@ -93,7 +93,7 @@ SPEC = dict(
     bounds=[
         'single inductive steps: ONE event applied to an ARBITRARY private state of QXmppOutgoingClient / QXmppOutgoingClientPrivate: isAuthenticated, sessionStarted, bindModeAvailable, authenticationMethod, stream id / from / version (<= 2 arbitrary UTF-16 units each), StreamAckManager enabled flag and 32-bit counters, C2sStreamManager {smAvailable, canResume, enabled, streamResumed, smId <= 2 units, pending request none / resume / enable}, carbons and CSI flags, FAST token flag, user / domain / resource <= 2 units, socket connected or not; per instance fixed (case split): which negotiation step listens (all 7 alternatives of the listener variant + a legacy-auth step with a pending query), 0..3 known server addresses (host <= 2 units, any port, TCP or TLS) with the index of the next one, next-address selection (TryNext) and pending see-other-host redirect (host <= 2 units, any port)',
         'outstanding IQ requests: 0..2 pending requests (ids of 1 resp. 2 units, addressees 1..2 units, promises unfinished, nobody attached yet); request table model capacity 3',
-        'events: socket disconnected; socket started; openSession; disconnectFromHost; socketError(any QAbstractSocket::SocketError, socket connected or not); handleStreamError(see-other-host | any of the 25 defined conditions, text <= 2 units); two-event compositions: disconnectFromHost + socket disconnected, see-other-host + socket disconnected; callers of openSession: handleStreamFeatures after authentication (bind / stream management offered or not, session / CSI modes arbitrary) and the answer to a REAL startSmEnable / startSmResume step (<failed/>, <enabled id<=2 resume?/>, <resumed h=any u32 previd<=2/>, a one-letter element of the sm namespace)',
+        'events: socket disconnected; socket started; openSession; disconnectFromHost; socketError(any QAbstractSocket::SocketError, socket connected or not); handleStreamError(see-other-host | any of the 25 defined conditions, text <= 2 units); two-event compositions: disconnectFromHost + socket disconnected, see-other-host + socket disconnected; callers of openSession: handleStreamFeatures after authentication (bind / stream management offered or not, previous session resumable or not, session / CSI modes arbitrary), the answer to a REAL startSmEnable / startSmResume step (<failed/>, <enabled id<=2 resume?/>, <resumed h=any u32 previd<=2/>, a one-letter element of the sm namespace; binding offered or not) and the answer to a REAL startResourceBinding step (result with a <jid> of 2 arbitrary units that is / is not a full JID, error, result without <bind/>; stream management offered or not)',
         'every step re-establishes what the next one assumes (after socket disconnected: not authenticated, no session; after socket started: per-stream state empty; TryNext only while an address is left and no session exists), so the per-event claims hold along every sequence of these events - i.e. for every cut point of a connection - as long as the stated bounds hold',
         'quick tier = a subset of the case combinations (every mechanism and every branch of _q_socketDisconnected / socketError / handleStreamError at least once); thorough tier = all listed combinations, plus the address index left symbolic (n3_any)',
         'socket write log capacity 4, connect log capacity 2, signal slots 8 (asserted as model limits)',
@@ -105,13 +105,14 @@ SPEC = dict(
         'XmppSocket is cut at sendData (ghost log of classification tags: what is serialised is classified by the TYPE of the serialiser - serializeXml<StreamOpen|QXmppBindIq|SmEnable|SmResume|CsiActive|...> overridden), connectToHost(ServerAddress) (ghost log of type / host / port), disconnectFromHost (counter) and isConnected (arbitrary flag); the TLS configuration calls of QXmppOutgoingClientPrivate::connectToHost (QSslConfiguration, setProxy, setPeerVerifyName) are no-ops; QSslSocket::isEncrypted / supportsSsl answer true in the features steps (TLS ordering is C04)',
         'QXmppTask/QXmppPromise are the assume-guarantee shadow (contract established by C13): "completed exactly once" = the shadow asserts no promise is finished twice, and the harness reads the stored result (QXmppError carrying SendError::Disconnected)',
         'std::unordered_map<QString,IqState> is the array-backed class-level model of harness/C07 (vp_iqmap.h); QMap<unsigned,QXmppPacket> (unacknowledged stanzas) is modelled as always empty - stanza accounting across sessions is C09',
-        'logging and log-text formatting (QString::arg, StreamErrorElement::streamErrorToString feeding the error text) are identity / empty models; QXmppUtils::generateStanzaUuid returns an arbitrary non-empty id; QNetworkProxy / QDateTime members are opaque words',
+        'QXmpp::Private::enumFromString<QXmppIq::Type,4> (inline template: std::find over the 4-entry type table) is replaced by an equivalent table look-up in c10_models.c: the translated original returns std::optional through an integer with undefined padding, after which the IQ type is not a constant for symbolic execution; QRegularExpression (JID pattern of the bind answer) is over-approximated: the verdict is fixed per instance (both verdicts run), the captures of a match are arbitrary non-empty strings <= 2 units',
+        'logging and log-text formatting (QString::arg, StreamErrorElement::streamErrorToString feeding the error text) are identity / empty models; QXmppUtils::generateStanzaUuid returns an id of 2 arbitrary units; QNetworkProxy / QDateTime members are opaque words',
     ],
     outside=[
         'the liveness half of the statement - "a following connection attempt succeeds", three consecutive real connection attempts with every cut point: that is a statement about the socket, the event loop, DNS and timers; what is encoded is that every cut leaves exactly the state from which the next attempt starts its negotiation from scratch (safety), not that the attempt terminates successfully',
         'QXmppOutgoingClient::connectToHost() itself (resume address / explicit host / legacy SSL / DNS SRV look-ups via QDnsLookup) and the reconnect timer policy of QXmppClient (QXmppClient.cpp); the delivery of the socket signals (who calls _q_socketDisconnected / handleStart / socketError and when) is Qt',
         'the keep-alive timers: the PingManager lambdas connected to connected / disconnected (connections are not modelled) and throwKeepAliveError',
-        'negotiation steps other than the ones listed: STARTTLS, SASL / SASL2 / FAST / legacy-auth exchanges (C04 - C06), SASL2 inline resumption / bind2 (onSasl2Success, onBind2Bound); for those only the reset at stream start and at disconnect is covered (their managers as listener alternatives in the pre-state)',
+        'negotiation steps other than the ones listed: STARTTLS, SASL / SASL2 / FAST / legacy-auth exchanges (C04 - C06; the continuations of SASL success and legacy-auth success that call handleStart / openSession are not run), SASL2 inline resumption / bind2 (onSasl2Success, onBind2Bound); for those only the reset at stream start and at disconnect is covered (their managers as listener alternatives in the pre-state)',
         'non-conforming servers that repeat <stream:features/> after the session was opened (would open a second session), features that offer authentication again after authentication',
         'observation, not asserted: bind2Bound is only consumed by openSession; if a connection is lost between SASL2 success and the following features, and the NEXT connection authenticates without SASL2, its SessionBegin reports bind2Used from the lost connection (handleStart does not clear it)',
         'unacknowledged stanzas kept by StreamAckManager across a connection loss (C09), wrap-around of counters, strings longer than the stated bounds, more than 2 outstanding requests / 3 addresses',
